@@ -59,8 +59,9 @@ pub fn exec(toks: &[&str]) -> String {
     let mut i = 1;
     // environment modifiers, irrelevant to the protocol: `@old` = the prior file was last modified two
     // hours ago (stores through a mapping do not refresh st_mtime), `@bin` = its name is not valid UTF-8
-    let (mut old, mut bin) = (false, false);
-    while toks[i].starts_with('@') { match toks[i] { "@old" => old = true, "@bin" => bin = true, _ => return "bad-modifier".into() } i += 1; }
+    // `@uid` = the restart happens under uid 65534, which owns the directory but not the file root left there
+    let (mut old, mut bin, mut uid) = (false, false, false);
+    while toks[i].starts_with('@') { match toks[i] { "@old" => old = true, "@bin" => bin = true, "@uid" => uid = true, _ => return "bad-modifier".into() } i += 1; }
     let prior = toks[i]; i += 1;
     // `valid <gen> <k>` (layout version 1), `validv <version> <gen> <k>` or `foreign <gen> <k>` (version 1,
     // wrong second magic word)
@@ -71,7 +72,8 @@ pub fn exec(toks: &[&str]) -> String {
     let k2: u64 = toks[i + 2].parse().unwrap();
     let path: std::path::PathBuf = {
         use std::os::unix::ffi::OsStringExt;
-        let mut b = format!("{}/crash-shm", scratch_dir()).into_bytes();
+        let dir = if uid { let d = format!("{}/crash-uid", scratch_dir()); let _ = std::fs::remove_dir_all(&d); std::fs::create_dir_all(&d).unwrap(); d } else { scratch_dir() };
+        let mut b = format!("{}/crash-shm", dir).into_bytes();
         if bin { b.extend_from_slice(b".\xE9\xFF"); }
         std::ffi::OsString::from_vec(b).into()
     };
@@ -126,7 +128,18 @@ pub fn exec(toks: &[&str]) -> String {
     };
     // restart: a new writer over whatever is there, then one publication
     let p3 = path.clone();
-    let r = guarded(std::panic::AssertUnwindSafe(move || { let mut w = ShmWriter::new(&p3).expect("new"); w.write(&record_of(k2)); }));
+    let r = if uid {
+        // the directory (and the way to it) belongs to the service account; the file, if any, stays root's, mode 0644
+        use std::os::unix::fs::PermissionsExt;
+        let dir = path.parent().unwrap().to_path_buf();
+        let cdir = CString::new(dir.to_str().unwrap()).unwrap();
+        unsafe { libc::chown(cdir.as_ptr(), 65534, 65534); }
+        let _ = std::fs::set_permissions(&dir, std::fs::Permissions::from_mode(0o755));
+        let t = crate::header::in_unprivileged_child(move || { match ShmWriter::new(&p3) { Ok(mut w) => { w.write(&record_of(k2)); "ok".to_string() } Err(_) => "refused".to_string() } });
+        if t == "ok" { Ok(()) } else { Err(()) }
+    } else {
+        guarded(std::panic::AssertUnwindSafe(move || { let mut w = ShmWriter::new(&p3).expect("new"); w.write(&record_of(k2)); }))
+    };
     let inode_after = std::fs::metadata(&path).map(|m| m.ino()).unwrap_or(0);
     let len2 = std::fs::metadata(&path).map(|m| m.len() as i64).unwrap_or(-1);
     let mut fresh = ShmReader::new(&c).ok();
@@ -137,7 +150,7 @@ pub fn exec(toks: &[&str]) -> String {
     // permission bits of the segment file: other users' clients must be able to read it
     let mode = std::fs::metadata(&path).map(|m| m.mode() & 0o777).unwrap_or(0);
     format!("ev {} ; crashed open:{} file:{} attached:{} fresh:{} ; restarted{} inode_same:{} len:{} fresh:{} attached:{} mode:{:o}",
-        ev, open1, len1, att1, fresh1_t, if r.is_err() { "-panic" } else { "" }, (inode_before != 0 && inode_before == inode_after) as u8, len2, fresh_t, att2, mode)
+        ev, open1, len1, att1, fresh1_t, if r.is_err() { if uid { "-refused" } else { "-panic" } } else { "" }, (inode_before != 0 && inode_before == inode_after) as u8, len2, fresh_t, att2, mode)
 }
 
 pub fn grid() -> Vec<String> {
@@ -148,6 +161,10 @@ pub fn grid() -> Vec<String> {
         for k in 0..24 { v.push(format!("crashpt {} {} 1 2", p, k)); }
     }
     // the same restart over a valid segment whose file is old / whose name is not UTF-8
+    // the restart under a service account that owns the directory but not the file
+    for p in ["valid 4 90", "valid 7 91", "validv 3 6 95", "foreign 4 97", "garbage", "wiped"] {
+        for k in [0, 5, 12, 18, 30] { v.push(format!("crashpt @uid {} {} 1 2", p, k)); }
+    }
     for m in ["@old", "@bin", "@old @bin"] {
         for p in ["valid 4 90", "valid 7 91", "wiped", "missing", "foreign 4 97"] {
             for k in [0, 12, 18, 30] { v.push(format!("crashpt {} {} {} 1 2", m, p, k)); }
